@@ -44,6 +44,21 @@ use std::sync::{Arc, Mutex, RwLock};
 use std::time::{Duration, Instant, SystemTime, UNIX_EPOCH};
 use tokio::task::JoinHandle;
 
+/// Crash / fault-injection point (deterministic-simulation seam). Expands to
+/// nothing unless the `verif-hooks` feature is enabled.
+#[cfg(feature = "verif-hooks")]
+macro_rules! vpoint {
+    ($name:expr, $path:expr) => {
+        if let Some(e) = crate::verif_hooks::point($name, $path) {
+            return Err(P2PError::Io(e));
+        }
+    };
+}
+#[cfg(not(feature = "verif-hooks"))]
+macro_rules! vpoint {
+    ($name:expr, $path:expr) => {};
+}
+
 /// WAL entry version for forward compatibility
 const WAL_VERSION: u8 = 1;
 
@@ -328,6 +343,7 @@ impl WalWriter {
             ))
         })?;
 
+        vpoint!("wal.before_record", &self.path);
         // Write entry size first (for recovery)
         let size_bytes = (serialized.len() as u32).to_le_bytes();
         self.file.write_all(&size_bytes).map_err(|e| {
@@ -336,12 +352,14 @@ impl WalWriter {
             ))
         })?;
 
+        vpoint!("wal.after_size", &self.path);
         // Write entry data
         self.file.write_all(&serialized).map_err(|e| {
             P2PError::Storage(StorageError::Database(
                 format!("Failed to write WAL entry: {e}").into(),
             ))
         })?;
+        vpoint!("wal.after_record", &self.path);
 
         self.current_size += 4 + serialized.len() as u64;
         self.entry_count += 1;
@@ -397,12 +415,23 @@ impl WalWriter {
     }
 
     /// Check if rotation needed
+    #[cfg(not(feature = "verif-hooks"))]
     fn needs_rotation(&self) -> bool {
         self.current_size >= MAX_WAL_SIZE || self.entry_count >= MAX_WAL_ENTRIES
     }
 
+    /// Check if rotation needed (entry threshold adjustable by the simulation)
+    #[cfg(feature = "verif-hooks")]
+    fn needs_rotation(&self) -> bool {
+        let max_entries = crate::verif_hooks::knob("wal_max_entries")
+            .map(|v| v as usize)
+            .unwrap_or(MAX_WAL_ENTRIES);
+        self.current_size >= MAX_WAL_SIZE || self.entry_count >= max_entries
+    }
+
     /// Rotate WAL file
     fn rotate(&mut self) -> Result<()> {
+        vpoint!("rotate.begin", &self.path);
         // Close current file
         self.file.sync_all().map_err(|e| {
             P2PError::Storage(StorageError::Database(
@@ -420,6 +449,7 @@ impl WalWriter {
                 format!("Failed to rotate WAL: {e}").into(),
             ))
         })?;
+        vpoint!("rotate.after_rename", &self.path);
 
         // Create new WAL file
         self.file = OpenOptions::new()
@@ -434,6 +464,7 @@ impl WalWriter {
 
         self.current_size = 0;
         self.entry_count = 0;
+        vpoint!("rotate.after_create", &self.path);
 
         Ok(())
     }
@@ -772,11 +803,14 @@ impl<T: Serialize + for<'de> Deserialize<'de> + Clone + PartialEq + Send + Sync 
                 ))
             })?;
             let header_size = (header_data.len() as u32).to_le_bytes();
+            vpoint!("checkpoint.tmp_created", &temp_path);
             file.write_all(&header_size)?;
             file.write_all(&header_data)?;
+            vpoint!("checkpoint.after_header", &temp_path);
 
             // Write snapshot data
             file.write_all(&snapshot_data)?;
+            vpoint!("checkpoint.after_data", &temp_path);
 
             file.sync_all().map_err(|e| {
                 P2PError::Storage(StorageError::Database(
@@ -791,12 +825,15 @@ impl<T: Serialize + for<'de> Deserialize<'de> + Clone + PartialEq + Send + Sync 
                 format!("Failed to rename snapshot: {e}").into(),
             ))
         })?;
+        vpoint!("checkpoint.after_rename", &snapshot_path);
 
         // Clean up old WAL files
         self.cleanup_old_wal_files(last_transaction_id).await?;
+        vpoint!("checkpoint.after_wal_cleanup", &snapshot_path);
 
         // Clean up old snapshots
         self.cleanup_old_snapshots().await?;
+        vpoint!("checkpoint.done", &snapshot_path);
 
         Ok(())
     }
@@ -823,11 +860,13 @@ impl<T: Serialize + for<'de> Deserialize<'de> + Clone + PartialEq + Send + Sync 
             ))
         })?;
 
+        vpoint!("recover.lock_created", &lock_path);
         // Find latest snapshot
         let _snapshot_result = self.recover_from_snapshot(&mut stats).await;
 
         // Recover from WAL files
         self.recover_from_wal(&mut stats).await?;
+        vpoint!("recover.before_unlock", &lock_path);
 
         // Remove lock file
         std::fs::remove_file(&lock_path).map_err(|e| {
@@ -1248,6 +1287,7 @@ impl<T: Serialize + for<'de> Deserialize<'de> + Clone + PartialEq + Send + Sync 
                         format!("Failed to remove old WAL: {e}").into(),
                     ))
                 })?;
+                vpoint!("checkpoint.wal_removed", &wal_path);
             }
         }
 
@@ -1473,7 +1513,15 @@ pub struct IntegrityReport {
     pub total_size: usize,
 }
 
+/// Get current Unix timestamp (simulated clock under `verif-hooks`)
+#[cfg(feature = "verif-hooks")]
+fn current_timestamp() -> u64 {
+    let _ = (SystemTime::now(), UNIX_EPOCH);
+    crate::verif_hooks::unix_secs()
+}
+
 /// Get current Unix timestamp
+#[cfg(not(feature = "verif-hooks"))]
 fn current_timestamp() -> u64 {
     SystemTime::now()
         .duration_since(UNIX_EPOCH)
